@@ -4,10 +4,16 @@ apply seeded/<id>/patch.diff to a scratch worktree of /repo (never /repo itself)
 check(s) named in meta.json caught_by against it (VERIF_REPO), record VIOLATION / not.
 Writes seeded/RESULTS.json and prints a table."""
 import glob, json, os, re, subprocess, sys
-WT = "/tmp/wt/mut"
+WT = os.environ.get("RESEED_WT", "/tmp/wt/mut")
+OUTF = os.environ.get("RESEED_OUT", "/verif/seeded/RESULTS.json")
 head = subprocess.check_output(["git", "-C", "/repo", "rev-parse", "HEAD"], text=True).strip()
 if not os.path.isdir(WT):
     subprocess.check_call(["git", "-C", "/repo", "worktree", "add", "-q", "--detach", WT, "HEAD"])
+OLD = json.load(open("/verif/seeded/RESULTS.json")).get("seeds", {}) if os.path.exists("/verif/seeded/RESULTS.json") else {}
+for _sid in glob.glob("/verif/seeded/C*"):
+    _m = json.load(open(_sid + "/meta.json"))
+    if _m.get("first_violation") and os.path.basename(_sid) not in OLD:
+        OLD[os.path.basename(_sid)] = {"checks": {(_m.get("caught_by") or [_m["breaks_property"]])[0].split(":")[0]: {"first": (_m["first_violation"].get("obligation", "") if isinstance(_m["first_violation"], dict) else str(_m["first_violation"]))}}}
 ids = sys.argv[1:] or sorted(os.path.basename(d) for d in glob.glob("/verif/seeded/C*"))
 res = {}
 for sid in ids:
@@ -16,24 +22,38 @@ for sid in ids:
     props = sorted({c.split(":")[0] for c in m.get("caught_by") or [] if c}) or [m["breaks_property"]]
     subprocess.call(["git", "-C", WT, "reset", "-q", "--hard"])
     subprocess.call(["git", "-C", WT, "checkout", "-q", "--detach", head])
-    if subprocess.call(["git", "-C", WT, "apply", d + "/patch.diff"]) != 0:
-        res[sid] = {"applies": False}
-        print(sid, "PATCH DOES NOT APPLY")
-        continue
+    if subprocess.call(["git", "-C", WT, "apply", d + "/patch.diff"], stderr=subprocess.DEVNULL) != 0:
+        # later repairs moved the context: try with less context / three-way
+        ok = False
+        for extra in (["-C1"], ["-C0", "--unidiff-zero"], ["-3"]):
+            subprocess.call(["git", "-C", WT, "reset", "-q", "--hard"])
+            if subprocess.call(["git", "-C", WT, "apply", *extra, d + "/patch.diff"], stderr=subprocess.DEVNULL) == 0:
+                ok = True
+                break
+        if not ok:
+            res[sid] = {"applies": False}
+            print(sid, "PATCH DOES NOT APPLY", flush=True)
+            continue
     out = {}
     for p in props:
-        r = subprocess.run(["./check", p], cwd="/verif", env={**os.environ, "VERIF_REPO": WT}, capture_output=True, text=True)
-        v = len(re.findall(r"^VIOLATION", r.stdout, re.M))
+        # fast path: the obligation that reported it last time, the whole check only if that one is silent now
+        hint = ((OLD.get(sid) or {}).get("checks") or {}).get(p, {}).get("first")
+        tries = ([["--only", hint.split(" ")[0]]] if hint and hint.split(" ")[0] else []) + [[]]
+        for extra in tries:
+            r = subprocess.run(["./check", p, *extra], cwd="/verif", env={**os.environ, "VERIF_REPO": WT}, capture_output=True, text=True)
+            v = len(re.findall(r"^VIOLATION", r.stdout, re.M))
+            if v:
+                break
         fm = re.search(r"obligation=(\S+) atom=(.+?) param=", r.stdout)
-        out[p] = {"exit": r.returncode, "violations": v, "first": (fm.group(1) + " " + fm.group(2)) if fm else None}
+        out[p] = {"exit": r.returncode, "violations": v, "first": (fm.group(1) + " " + fm.group(2)) if fm else None, "only": bool(extra)}
     caught = any(o["violations"] > 0 for o in out.values())
     res[sid] = {"applies": True, "expected_detected": m.get("detected_by_checks"), "caught": caught, "checks": out}
     print(sid, "CAUGHT" if caught else "not reported", {p: o["violations"] for p, o in out.items()}, flush=True)
 subprocess.call(["git", "-C", WT, "reset", "-q", "--hard"])
 prev = {}
-if os.path.exists("/verif/seeded/RESULTS.json") and sys.argv[1:]:
-    prev = json.load(open("/verif/seeded/RESULTS.json")).get("seeds", {})
+if os.path.exists(OUTF) and sys.argv[1:]:
+    prev = json.load(open(OUTF)).get("seeds", {})
 prev.update(res)
-json.dump({"repo_head": head, "seeds": prev}, open("/verif/seeded/RESULTS.json", "w"), indent=1)
+json.dump({"repo_head": head, "seeds": prev}, open(OUTF, "w"), indent=1)
 bad = [s for s, r in res.items() if r.get("applies") and r.get("expected_detected") and not r.get("caught")]
 print("regressions (expected detected, not reported now):", bad)
